@@ -195,20 +195,29 @@ Proof. exact gossip_current_after_empty_read_refuted. Qed.
 Print Assumptions C11_gossip_current_after_empty_read_refuted.
 
 (** After a state-machine read that returned nothing: lastSentVersion is the version of the
-    kernel's view of the entered round, when that round is the voting or the committing round. *)
-Theorem C11_sm_current_after_empty_read_partial : forall ih ivs ops s' ios s'' c,
+    kernel's view of the entered round, when that round is the voting or the committing round.
+    ALL histories without crash / restart, replayed headers included (a replayed header never
+    changes a version: for every kernel operation each kernel view has the (height, round, version)
+    of the last view marked for its slot, [SYW]). *)
+Theorem C11_kernel_views_agree_with_last_marked : forall s o s' res,
+  MirrorAuth.auth_state s -> step s o = Ok (s', res) -> SYW s s'.
+Proof. exact SYW_step. Qed.
+Print Assumptions C11_kernel_views_agree_with_last_marked.
+
+Theorem C11_sm_current_after_empty_read : forall ih ivs ops s' ios s'' c,
   1 <= ih -> ih < two64 ->
-  forallb plain_op ops = true -> mrun (ms_init ih ivs) ops = Ok (s', ios) ->
+  forallb no_restart ops = true -> mrun (ms_init ih ivs) ops = Ok (s', ios) ->
   Forall ev_ok (st_ev (ms_k s')) ->
   mstep s' MSMRead = Ok (s'', c, IOEmpty) ->
   forall vid, vid = ViewIDVoting \/ vid = ViewIDCommitting ->
   v_h (get_view (ms_k s'') vid) = smm_h (sm_of s'') -> v_r (get_view (ms_k s'') vid) = smm_r (sm_of s'') ->
   smm_last (sm_of s'') = v_ver (get_view (ms_k s'') vid).
 Proof. exact sm_current_after_empty_read. Qed.
-Print Assumptions C11_sm_current_after_empty_read_partial.
+Print Assumptions C11_sm_current_after_empty_read.
 
-(** with a (rejected) replayed header the versions still agree, but the kernel's view of the
-    entered round holds a proposed header that the state machine was never given *)
+(** ... but being current in the VERSION is not being current in the CONTENT: with a (rejected)
+    replayed header the versions agree and the kernel's view of the entered round holds a proposed
+    header that the state machine was never given *)
 Theorem C11_sm_content_current_after_empty_read_refuted :
   exists s' ios s'' c v0,
     mrun (ms_init 1 n_vs) w_sm_ops = Ok (s', ios) /\ forallb ev_okb (st_ev (ms_k s')) = true /\
